@@ -56,6 +56,13 @@ REQUIRE = {
     "programs:zmq:virtual": 300,
     "callbacks_entered": 20000,
     "callbacks_entered_in_later_runs": 2000,
+    **{f"programs_fd0:{lp}:real": 15 for lp in ("select", "zmq", "asyncio", "tornado", "twisted", "trio")},
+    "programs_fd0:select:virtual": 100,
+    "programs_fd0:zmq:virtual": 100,
+    **{f"fd0:watch_callbacks_entered:{lp}": 20 for lp in ("select", "zmq", "asyncio", "tornado", "twisted", "trio")},
+    **{f"fd0:remove_watch_file_calls:{lp}": 10 for lp in ("select", "zmq", "asyncio", "tornado", "twisted", "trio")},
+    **{f"fd0:rewatched_after_removal:{lp}": 3 for lp in ("select", "zmq", "asyncio", "tornado", "twisted", "trio")},
+    **{f"first_handle_removed:{k}:{lp}": 5 for k in ("alarm", "watch", "idle") for lp in ("select", "zmq", "asyncio", "tornado", "twisted", "trio")},
     "programs_with_third_run": 20,
     **{f"programs_with_second_run:{lp}": 20 for lp in ("select", "zmq", "asyncio", "tornado", "trio")},
     **{f"rerun_after:{k}": 10 for k in ("exit-from-final-alarm", "exit-from-alarm-callback", "boom-from-alarm-callback", "exit-from-watch-callback", "boom-from-watch-callback", "exit-from-idle-callback", "boom-from-idle-callback")},
@@ -73,7 +80,8 @@ RULE = (
     "exhaustive over all weak orderings of n_a<=4 alarm-due and n_f<=3 fd-ready events (total <=4 quick / <=5 thorough with every "
     "(actor, action) pair from {remove self, remove sibling (once/twice), re-arm, raise exit, raise Boom, slow}; total 6-7 with "
     "no-op actions in thorough) x ready-report order x idle variants, plus random programs. Real clock: random programs on all six loops. "
-    "Programs may call run() two or three times on the same loop object (all loops but twisted): the first run ended by the final alarm, ExitMainLoop or a "
+    "In a share of the programs descriptor key 0 IS file descriptor 0 (real clock: the pipe's read end dup2()ed over the worker's stdin; virtual: fd "
+    "number 0), so the falsy descriptor / handle value is watched, removed and re-watched on every loop. Programs may call run() two or three times on the same loop object (all loops but twisted): the first run ended by the final alarm, ExitMainLoop or a "
     "Boom raised from an alarm / watch / idle callback, then new alarms / watches / idle callbacks are registered and run() is called again; every clause "
     "is judged inside every run. distinct = distinct program descriptors; non-trivial = at least one callback was entered"
 )
@@ -168,6 +176,28 @@ class Tally:
         self.count("api_calls", sum(1 for ev in hist if ev["e"] == "call"))
         if mode == "virtual":
             self.count("virtual_blocks", sum(1 for ev in hist if ev["e"] == "block"))
+        # descriptor 0 / falsy handles / removal of the first handle of each kind of a fresh loop
+        first_of = {}
+        for ev in hist:
+            if ev["e"] != "call" or "exc" in ev:
+                continue
+            kind = {"alarm": "alarm", "watch_file": "watch", "enter_idle": "idle"}.get(ev["op"])
+            if kind:
+                first_of.setdefault(kind, ev["id"])
+                if ev.get("handle_falsy"):
+                    self.count(f"falsy_handle_returned:{ev['op']}:{lp}")
+            rk = {"remove_alarm": "alarm", "remove_watch_file": "watch", "remove_enter_idle": "idle"}.get(ev["op"])
+            if rk and first_of.get(rk) == ev["id"]:
+                self.count(f"first_handle_removed:{rk}")
+                self.count(f"first_handle_removed:{rk}:{lp}")
+        if prog.get("fd0"):
+            self.count(f"programs_fd0:{lp}:{mode}")
+            self.count(f"fd0:watch_callbacks_entered:{lp}", sum(1 for ev in hist if ev["e"] == "enter" and ev["kind"] == "watch" and ev.get("fd") == 0))
+            w0 = [ev for ev in hist if ev["e"] == "call" and ev["op"] == "watch_file" and ev.get("fd") == 0 and "exc" not in ev]
+            ids0 = {ev["id"] for ev in w0}
+            self.count(f"fd0:watch_file_calls:{lp}", len(w0))
+            self.count(f"fd0:rewatched_after_removal:{lp}", max(0, len(w0) - 1))
+            self.count(f"fd0:remove_watch_file_calls:{lp}", sum(1 for ev in hist if ev["e"] == "call" and ev["op"] == "remove_watch_file" and ev["id"] in ids0))
         # how did each run() that was followed by another run() on the same loop object end?
         ends = [i for i, ev in enumerate(hist) if ev["e"] == "run_end"]
         begins = [i for i, ev in enumerate(hist) if ev["e"] == "run_begin"]
@@ -448,7 +478,7 @@ def virtual_enumeration(ctx, tally, frac):
                         idx += 1
                         if not ctx.mine(idx):
                             continue
-                        one(G.build_enum(loop, na, nf, ranks, action, "reg", unit if loop == "select" else 400, iv, second), loop, f"enum_two_runs:{loop}")
+                        one(G.build_enum(loop, na, nf, ranks, action, "reg", unit if loop == "select" else 400, iv, second, fd0=bool((idx // ctx.nshards) % 2)), loop, f"enum_two_runs:{loop}")
     # A: every weak ordering x every single (actor, action), n <= 4 (quick: n == 4 strided), n == 5 thorough
     for na, nf in splits_small + ([] if ctx.quick else splits_5):
         n = na + nf
@@ -465,7 +495,7 @@ def virtual_enumeration(ctx, tally, frac):
                             complete = False
                             tally.count(f"enum_skipped_for_budget:{n}_events")
                             continue
-                        one(G.build_enum(loop, na, nf, ranks, action, order, unit), loop, f"enum_action:{action[1]}")
+                        one(G.build_enum(loop, na, nf, ranks, action, order, unit, fd0=bool((idx // (3 * ctx.nshards)) % 2)), loop, f"enum_action:{action[1]}")
         flush_tally(ctx, tally)
     # C: thorough: all weak orderings of 6-7 events with no-op callbacks (pure scheduling order)
     if not ctx.quick:
